@@ -99,6 +99,11 @@ def run(rep: Report) -> None:
                         detail = "" if ok else f"queue at the maximal flow is {nz.show(at_bound)[:120]}, not 0"
                 rep.check(ok, "queue-nonnegative", inst0, sq.where, detail, key=f"queue|{impl}|{prim}|{typ}")
     rep.floor("flow laws analysed", n, 8)
+    # the laws are the model's: the bounds above are derived from the shape of each law; what
+    # the capacity of a mainstream origin *is* (lanes V(rho_crit) rho_crit) is fixed by the formula
+    from . import c01 as _c01
+
+    _c01.run(rep, only_prims=lambda pr: pr.startswith("origins."), only_cfg=lambda cfg: False)
     from .. import ctor
 
     ctor.check(rep, groups=("origin",))
